@@ -1,6 +1,7 @@
 import Driver.Util
 import Paroxy.Model.FlatAst
 import Paroxy.Spec.FlatAst
+import Paroxy.Spec.FlatTweaks
 open Lean Paroxy.Flat
 
 namespace Driver.C15
@@ -73,7 +74,9 @@ def dump : Handler := fun j => do
 /-- `c15.spec`: the flat AST the property describes. -/
 def spec : Handler := fun j => do
   let t ← getTree j
-  pure (Json.mkObj [("lines", linesJson (specFlatten t))])
+  let t1 := onTheFly implCfg t
+  pure (Json.mkObj [("lines", linesJson (specFlatten t)),
+    ("wf_unquote", Json.bool (wfUnquote t1)), ("wf_kinds", Json.bool (wfKinds t1))])
 
 /-- `c15.seq`: a sequence of flattenings threading the factory state (indices into `trees`). -/
 def seq : Handler := fun j => do
